@@ -10,7 +10,7 @@ def components():
 
 
 def oracles_():
-    return [comps_ctx.CtxRestore(), comps_ctx.CtxModelInv()]
+    return [comps_ctx.CtxRestore(), comps_ctx.CtxRich(), comps_ctx.CtxModelInv()]
 
 
 TRUSTED = [
